@@ -191,6 +191,24 @@ class Engine:
         self.cache[key] = rs
         return rs, (s.model() if want_model and rs == "sat" else None)
 
+    def decide(self, st, c):
+        """truth value of a symbolic condition: True/False when the path condition decides it, otherwise
+        raises SymCond so that the instruction is re-executed on both sides"""
+        if not is_sym(c):
+            return bool(c)
+        c = z3.simplify(boolz(c))
+        if z3.is_true(c):
+            return True
+        if z3.is_false(c):
+            return False
+        if not self.feasible(st, c):
+            st.pc.append(z3.Not(c))
+            return False
+        if not self.feasible(st, z3.Not(c)):
+            st.pc.append(c)
+            return True
+        raise SymCond(c)
+
     def feasible(self, st, c):
         r, _ = self.check(st.pc + [c])
         return r != "unsat"
@@ -246,6 +264,10 @@ class Engine:
         if o.size is not None and (off < 0 or off + size > o.size):
             raise MemError("out-of-bounds %s at %s+%d size %d (object size %s)" % (
                 "write" if write else "read", o.name or o.id, off, size, o.size))
+        if st.user.get("guard_on"):
+            for gobj, lo, hi, mname, gname in st.user.get("guards") or ():
+                if gobj == p.obj and off < hi and off + size > lo and mname not in (st.user.get("held") or ()):
+                    self.guard_violation(st, gname, mname, write)
         if write:
             if o.const:
                 raise MemError("write to constant " + o.name)
@@ -761,6 +783,21 @@ class Engine:
                                    "notes": st.notes})
         return res
 
+    def guard_violation(self, st, gname, mname, write):
+        fr = st.frames[-1]
+        lab = "lock.discipline." + gname
+        d = self.res.checks.setdefault(lab, {"unsat": 0, "sat": 0, "unknown": 0, "concrete_ok": 0, "concrete_fail": 0})
+        key = ("gv", lab, fr.func.name)
+        if st.user.get(key):
+            return
+        st.user[key] = True
+        d["concrete_fail"] += 1
+        r, m = self.check(st.pc, want_model=True)
+        if r != "unsat":
+            self.res.cex.append({"label": lab, "kind": "lock", "inputs": self.model_inputs(st, m),
+                                 "detail": "%s of %s without holding %s in %s" % ("write" if write else "read", gname, mname,
+                                                                               P_dem(fr.func.name))})
+
     def on_mem_error(self, st, msg):
         r, m = self.check(st.pc, want_model=True)
         if r == "unsat":
@@ -839,6 +876,11 @@ class Engine:
                 r = self.fork_on_values(st, sb.term, "byte")
                 if r is None:
                     continue
+            except SymCond as sc:
+                a, b = st.fork(), st.fork()
+                a.pc.append(sc.cond)
+                b.pc.append(z3.Not(sc.cond))
+                r = [a, b]
             if r is not None:
                 return r
         return None
@@ -1391,6 +1433,13 @@ class Budget(Exception):
 class SymOffset(Exception):
     def __init__(self, term):
         self.term = term
+
+
+class SymCond(Exception):
+    """fork the current state on a condition and re-execute the instruction in both children"""
+
+    def __init__(self, cond):
+        self.cond = cond
 
 
 class SymByte(Exception):
